@@ -8,7 +8,8 @@ RULE = ("Hypothesis-generated graph cases (as C01) with emphasis on cache state:
         "versions; flags none/--again; optionally a second invocation on the same project that sees the first "
         "one's versions. Oracle = independent model of the needed set (DFS from T that neither enters nor includes an "
         "experiment with a reusable version). Non-trivial = closure has a task reachable by >=2 paths, or >=1 cached "
-        "experiment hides a non-empty subtree. Distinct = SHA-1 of case JSON.")
+        "experiment hides a non-empty subtree. Distinct = SHA-1 of case JSON."
+        " Also generated: the same task name in different packages; one dependency listed twice under two spellings (then only 'at most once' and the progress counters are judged).")
 ASSUMPTIONS = ["git is disabled in these projects, so 'reusable cached result' = any recorded version (C05 checks the git rule)"]
 ESSENTIAL = ["two_paths", "cached_hides_subtree", "cached_and_also_directly_needed", "again", "second_invocation",
              "failures_present"]
